@@ -31,3 +31,38 @@ mod base;
 mod rrdp;
 mod rsync;
 
+
+/// Forwarding wrappers for the verification harness.
+#[cfg(feature = "verif-hooks")]
+pub mod verif {
+    use std::path::PathBuf;
+    use rpki::uri;
+    use crate::config::Config;
+    pub use super::rrdp::RepositoryState;
+
+    /// Path of the local copy of the rsync module of `uri`.
+    pub fn rsync_module_path(
+        config: &Config, uri: &uri::Rsync
+    ) -> Option<PathBuf> {
+        super::rsync::Collector::new(config).ok()?.map(|c| {
+            c.verif_module_path(uri)
+        })
+    }
+
+    /// Path of the local copy of the rsync object `uri`.
+    pub fn rsync_uri_path(
+        config: &Config, uri: &uri::Rsync
+    ) -> Option<PathBuf> {
+        super::rsync::Collector::new(config).ok()?.map(|c| {
+            c.verif_uri_path(uri)
+        })
+    }
+
+    /// Path of the RRDP archive for `rpki_notify`.
+    pub fn rrdp_repository_path(
+        config: &Config, rpki_notify: &uri::Https
+    ) -> Option<PathBuf> {
+        super::rrdp::Collector::new(config).ok()??
+            .verif_repository_path(rpki_notify).ok()
+    }
+}
